@@ -107,6 +107,29 @@ func (p *pkg) eval(e ast.Expr, depth int) (int64, bool) {
 	return 0, false
 }
 
+// PyConst reads `NAME = <int>` at the start of a line of a Python source file.
+func PyConst(repo, file, name, lean string) Fact {
+	f := Fact{Name: lean, Where: file + ":" + name}
+	b, err := os.ReadFile(filepath.Join(repo, file))
+	if err != nil {
+		return f
+	}
+	for _, l := range strings.Split(string(b), "\n") {
+		t := strings.TrimSpace(l)
+		if strings.HasPrefix(l, name) && strings.Contains(t, "=") {
+			parts := strings.SplitN(t, "=", 2)
+			if strings.TrimSpace(strings.Split(parts[0], ":")[0]) != name {
+				continue
+			}
+			v, err := strconv.ParseInt(strings.TrimSpace(strings.Split(parts[1], "#")[0]), 10, 64)
+			if err == nil {
+				f.Value, f.Found = v, true
+			}
+		}
+	}
+	return f
+}
+
 // Const evaluates a package-level constant.
 func Const(repo, dir, name, lean string) Fact {
 	p, err := load(filepath.Join(repo, dir))
